@@ -23,5 +23,33 @@ def types_prop(pid, **kw):
     PROPS[pid] = d
 
 
-for _p in ('C01', 'C02', 'C03', 'C04', 'C05', 'C06', 'C15', 'C18', 'C19', 'C20'):
+def merge(*runs):
+    """a property decided by several suites: violations are concatenated, counts added"""
+    def run(pid, tier, seed):
+        viol, cov = [], {}
+        for r in runs:
+            res = r(pid, tier, seed)
+            viol.extend(res['violations'])
+            for k, v in res['coverage'].items():
+                if k in cov and isinstance(v, int) and isinstance(cov[k], int):
+                    cov[k] += v
+                elif k in cov and isinstance(v, list):
+                    cov[k] = cov[k] + v
+                elif k in cov and isinstance(v, str) and v not in cov[k]:
+                    cov[k] = cov[k] + ' || ' + v
+                elif k in cov and isinstance(v, dict):
+                    cov[k] = dict(cov[k], **v)
+                else:
+                    cov.setdefault(k, v)
+        return {'violations': viol, 'coverage': cov}
+    return run
+
+
+for _p in ('C01', 'C02', 'C03', 'C04', 'C06', 'C15', 'C18', 'C19', 'C20'):
     types_prop(_p)
+PROPS['C05'] = {'run': merge(suites.run_property_types, suites.run_property_hist)}
+for _p in ('C11', 'C12', 'C13'):
+    PROPS[_p] = {'run': suites.run_property_hist}
+PROPS['C14'] = {'run': merge(suites.run_property_hist, suites.run_property_types)}
+for _p in ('C07', 'C08', 'C09', 'C10'):
+    PROPS[_p] = {'run': suites.run_property_io}
